@@ -20,9 +20,9 @@ ASSUMPTIONS = ["node labels are unique strings so that rows of the returned tabl
 EXHAUSTIVE = {"quick": ["all strings len<=3 over AC as one repertoire, k=1..3, 4 clustering methods"],
               "thorough": ["all strings len<=4 over AC and len<=3 over ACD as repertoires, k=1..3, 4 clustering methods",
                            "hierarchical: 4 methods x 2 criteria x t in 1..4 on fixed witnesses"]}
-REQUIRE = {"graph_cc_cases": 15, "graph_community_cases": 18, "empty_neighbour_list_cases": 2, "isolated_node_cases": 15,
+REQUIRE = {"graph_cc_cases": 13, "graph_community_cases": 16, "empty_neighbour_list_cases": 2, "isolated_node_cases": 15,
            "d0_edge_cases": 10, "series_node_label_cases": 8, "hier_cases": 27, "hier_table_cases": 6, "hier_nondefault_index": 8,
-           "identity_cases": 10, "identity_multi_member": 9, "hier_t_zero_cases": 3, "asymmetric_neighbour_lists": 3}
+           "identity_cases": 10, "identity_multi_member": 9, "hier_t_zero_cases": 3, "asymmetric_neighbour_lists": 3, "duplicate_node_label_cases": 3}
 SHARDS = {"quick": 4, "thorough": 16}
 
 
@@ -74,6 +74,26 @@ def k_graph(ctx, seqs, k, engine, mode, method, labels="list", max_returns=None)
     if any(c > 1 for c in sizes.values()):
         ctx.nontriv(["g", seqs, k, mode, method, labels])
     names = [f"n{i}:{s}" for i, s in enumerate(seqs)]
+    if labels == "sequences":
+        # the caller labels the nodes with the sequences themselves (duplicates allowed): compare label multisets per cluster
+        ctx.count("duplicate_node_label_cases")
+        out = ctx.call(prs.graph_clustering, trip, list(seqs), clustering=method)
+        if not out.ok:
+            ctx.violation(f"graph_clustering:{method}:sequence-labels:raised", "raised", out.describe(), None)
+            return
+        got = collections.defaultdict(collections.Counter)
+        for name, c in zip(out.value["node"].tolist(), out.value["cluster"].tolist()):
+            got[c][str(name)] += 1
+        got_ms = collections.Counter(frozenset(v.items()) for v in got.values())
+        comp = collections.defaultdict(collections.Counter)
+        for i in range(n):
+            if sizes[root[i]] > 1:
+                comp[root[i]][seqs[i]] += 1
+        want_ms = collections.Counter(frozenset(v.items()) for v in comp.values())
+        if method == "cc" and got_ms != want_ms:
+            ctx.violation("graph_clustering:cc:sequence-labels:wrong-components", "with sequences as node labels the clusters are not the multi-member components",
+                          [dict(x) for x in got_ms], [dict(x) for x in want_ms])
+        return
     if labels == "series":
         nodes = pd.Series(names, index=[f"row{i}" for i in range(n)])
         ctx.count("series_node_label_cases")
@@ -264,6 +284,8 @@ def generate(tier, seed):
         yield "graph", {"seqs": ["CAAAA", "CDDDDDDD", "CWWW"], "k": 1, "engine": "nearest_neighbor", "mode": "lev", "method": m}, True
     yield "graph", {"seqs": ["CAAAA"], "k": 1, "engine": "kdtree", "mode": "lev", "method": "cc"}, True
     yield "graph", {"seqs": ["CAAA", "CAAA", "CDDD", "CAAD", "CWWWW", "CAAA"], "k": 1, "engine": "hash_based", "mode": "hamming", "method": "cc", "labels": "series"}, True
+    for dup in (["CAAA", "CAAA", "CWWWW", "CDDDD", "CDDDD", "CDDDD"], ["CA", "CA"], ["CAAA", "CAAA", "CAAD", "CWW", "CWW"]):
+        yield "graph", {"seqs": dup, "k": 1, "engine": "nearest_neighbor", "mode": "lev", "method": "cc", "labels": "sequences"}, True
     n_g = 2500 * TS if thorough else 150
     pools = [G.universe("AC", 5), G.universe("ACD", 4), G.universe("AWY", 3)]
     for i in range(n_g):
@@ -276,7 +298,7 @@ def generate(tier, seed):
         if eng == "hash_based" and k == 2 and max(len(s) for s in seqs) > 5:
             k = 1
         p = {"seqs": seqs, "k": k, "engine": eng, "mode": "hamming" if i % 5 == 0 else "lev", "method": METHODS[i % 4] if i % 2 else "cc",
-             "labels": ["list", "series", "ndarray", "series_shifted"][i % 4]}
+             "labels": ["list", "series", "ndarray", "series_shifted", "sequences"][i % 5]}
         if eng == "kdtree" and i % 2 == 0:
             p["max_returns"] = 1 + (i // 6) % 2
         yield "graph", p, i < 50
